@@ -262,7 +262,7 @@ def rule_D2(ctx, rep, rid='D2'):
     rep.ob(rid, 'client-flush-propagates', okk, b.where(fl[0]), 'Err(e) -> Err(from(e)), Ok -> Ok(())' if okk else 'flush result is not propagated')
 
 
-def rule_D3(ctx, rep, rid='D3'):
+def rule_D3(ctx, rep, rid='D3', methods=('flush', 'stats')):
     """QueuingMetricSink::flush/stats delegate to self.sink; build() makes self.sink and the worker's sink the same Arc."""
     cad = ctx.cad
     Q = 'cadence::sinks::queuing::QueuingMetricSink'
@@ -271,7 +271,7 @@ def rule_D3(ctx, rep, rid='D3'):
         rep.anchor_lost(rid, 'impl MetricSink for QueuingMetricSink')
         return
     items = {it['name']: it['path'] for it in impl[0]['items']}
-    for meth in ('flush', 'stats'):
+    for meth in methods:
         if meth not in items:
             rep.bad(rid, 'queuing-%s-delegates' % meth, impl[0]['span']['file'],
                     'QueuingMetricSink does not override %s: the wrapped sink\'s %s is unreachable through it' % (meth, meth))
@@ -279,11 +279,13 @@ def rule_D3(ctx, rep, rid='D3'):
         b = cad.bodies[items[meth]]
         rep.analysed(b)
         T = Terms(b)
-        calls = [bi for bi, t in b.calls() if not b.blocks[bi]['cleanup'] and not callee_is(t, 'Deref>::deref')]
+        calls = [bi for bi, t in b.calls() if not b.blocks[bi]['cleanup'] and callee_is(t, SINK_TRAIT + '::' + meth)
+                 and self_field_name(norm(T.call_term(bi))[2][0]) == 'sink']
         ok = False
-        if len(calls) == 1 and callee_is(b.term(calls[0]), SINK_TRAIT + '::' + meth):
+        if len(calls) == 1 and count_events(b, lambda x: x in calls) == {1}:
+            # the wrapped sink's method is reached on every path and its result is what the caller gets
             ct = norm(T.call_term(calls[0]))
-            ok = self_field_name(ct[2][0]) == 'sink' and ret_terms(T, [0]) == {ct}
+            ok = ret_terms(T, [0]) == {ct}
         rep.ob(rid, 'queuing-%s-delegates' % meth, ok, b.where(),
                '%s() = self.sink.%s() unchanged' % (meth, meth) if ok else
                'QueuingMetricSink::%s is not a plain delegation to the wrapped sink' % meth)
